@@ -69,3 +69,147 @@ def name_ret(text, name, fn_name=None):
     last = toks[end - 1]
     b = last.pos + len(last.text)
     return text[:a] + "(" + name + ": " + text[a:b] + ")" + text[b:], 1
+
+
+def _find_tok_seq(toks, seq, start=0):
+    n = len(seq)
+    for k in range(start, len(toks) - n + 1):
+        if all(toks[k + i].text == seq[i] for i in range(n)):
+            return k
+    return -1
+
+
+def _close(toks, k):
+    """k: index of an opening token ( { [ | ; returns index of its partner."""
+    pairs = {"{": "}", "(": ")", "[": "]"}
+    o = toks[k].text
+    c = pairs[o]
+    d = 0
+    for j in range(k, len(toks)):
+        if toks[j].text == o:
+            d += 1
+        elif toks[j].text == c:
+            d -= 1
+            if d == 0:
+                return j
+    raise ValueError("unbalanced")
+
+
+def closure_to_fn(text, name, extra_params, ret_type):
+    """R11: `let NAME = |P| { B };` -> `fn NAME(P, EXTRA) -> RET { B }` and every
+    call `NAME(args)` -> `NAME(args, <names of EXTRA>)`. The closure captures only
+    the Copy locals listed in EXTRA (`a: T; b: U`). Needed because a closure's
+    requires/ensures are not visible at call sites inside loop bodies."""
+    toks, _ = lex(text)
+    k = _find_tok_seq(toks, ["let", name, "=", "|"])
+    if k < 0:
+        return text, 0
+    p0 = k + 3
+    p1 = p0 + 1
+    while toks[p1].text != "|":
+        p1 += 1
+    b0 = p1 + 1
+    if toks[b0].text != "{":
+        return text, 0
+    b1 = _close(toks, b0)
+    if toks[b1 + 1].text != ";":
+        return text, 0
+    params = text[toks[p0].pos + 1:toks[p1].pos]
+    extra = [e.strip() for e in extra_params.split(";") if e.strip()]
+    extra_names = [e.split(":")[0].strip() for e in extra]
+    head = "fn %s(%s, %s) -> %s " % (name, params.strip(), ", ".join(extra), ret_type)
+    body = text[toks[b0].pos:toks[b1].pos + 1]
+    start = toks[k].pos
+    end = toks[b1 + 1].pos + 1
+    new = text[:start] + head + body + text[end:]
+    # calls
+    n = 1
+    out = []
+    i = 0
+    toks2, _ = lex(new)
+    pos_edits = []
+    for j, t in enumerate(toks2):
+        if t.text == name and j + 1 < len(toks2) and toks2[j + 1].text == "(" and toks2[j - 1].text != "fn":
+            c = _close(toks2, j + 1)
+            pos_edits.append(toks2[c].pos)
+    for p in sorted(pos_edits, reverse=True):
+        new = new[:p] + ", " + ", ".join(extra_names) + new[p:]
+        n += 1
+    return new, n
+
+
+def break_value(text, fn_name, ty):
+    """R5: in fn FN, the first `loop` whose `break`s carry a value becomes
+    `let mut __brk: TY; loop { … { __brk = V; break; } … } __brk`
+    (Verus: "complex break expressions unsupported"). Standard desugaring."""
+    toks, _ = lex(text)
+    k = _find_tok_seq(toks, ["fn", fn_name])
+    if k < 0:
+        return text, 0
+    l = k
+    while l < len(toks) and toks[l].text != "loop":
+        l += 1
+    if l >= len(toks) or toks[l + 1].text != "{":
+        return text, 0
+    e = _close(toks, l + 1)
+    edits = []   # (start, end, replacement)
+    n = 0
+    j = l + 2
+    while j < e:
+        if toks[j].text == "break" and toks[j + 1].text not in (";", ",", "}"):
+            # expression runs to `;` or `,` at depth 0
+            d = 0
+            m = j + 1
+            while True:
+                x = toks[m].text
+                if x in "([{":
+                    d += 1
+                elif x in ")]}":
+                    if d == 0:
+                        break
+                    d -= 1
+                elif x in (";", ",") and d == 0:
+                    break
+                m += 1
+            expr = text[toks[j + 1].pos:toks[m - 1].pos + len(toks[m - 1].text)]
+            term = toks[m].text
+            end = toks[m].pos + (1 if term == ";" else 0)
+            edits.append((toks[j].pos, end, "{ __brk = %s; break; }" % expr))
+            n += 1
+            j = m
+        j += 1
+    if not n:
+        return text, 0
+    loop_pos = toks[l].pos
+    loop_end = toks[e].pos + 1
+    new = text
+    new = new[:loop_end] + "\n            __brk" + new[loop_end:]
+    for a, b, r in sorted(edits, reverse=True):
+        new = new[:a] + r + new[b:]
+    new = new[:loop_pos] + "let mut __brk: %s;\n            " % ty + new[loop_pos:]
+    return new, n
+
+
+def lift_map_err(text, method, err_ty, out_ty):
+    """R9: `X.map_err(|e| { B })` where the closure captures `self` mutably ->
+    `match X { Ok(v) => Ok(v), Err(e) => Err(self.METHOD(e)) }` plus a hoisted
+    method `fn METHOD(&mut self, e: ERR) -> OUT { B }` placed after the function
+    (B byte for byte; `return` keeps its meaning: it returned from the closure)."""
+    toks, _ = lex(text)
+    k = _find_tok_seq(toks, [".", "map_err", "(", "|", "e", "|", "{"])
+    if k < 0:
+        return text, 0
+    b0 = k + 6
+    b1 = _close(toks, b0)
+    if toks[b1 + 1].text != ")":
+        return text, 0
+    # X: from the start of the statement (first token on a fresh line after `;` or `}`) to k
+    s = k
+    while s > 0 and toks[s - 1].text not in (";", "}", "{"):
+        s -= 1
+    x = text[toks[s].pos:toks[k].pos]
+    body = text[toks[b0].pos:toks[b1].pos + 1]
+    repl = "match %s { Ok(v) => Ok(v), Err(e) => Err(self.%s(e)) }" % (x.strip(), method)
+    new = text[:toks[s].pos] + repl + text[toks[b1 + 1].pos + 1:]
+    new = new.rstrip() + "\n\n    fn %s(&mut self, e: %s) -> %s %s\n" % (method, err_ty, out_ty, body)
+    return new, 1
